@@ -19,6 +19,7 @@ Mutants (checks/mutants/X01), all exit 1:
   unpack-rcode-shift    Unpack joins ExtendedRcode without the << 4 GEN ops edns/get:ExtendedRcode, msg edns/unpack:rcode
   pack-no-reset         Pack sets the extended RCODE only when Rcode > 15   GEN msg edns/pack:octets
   setedns0-do           SetEdns0(_, false) still sets DO            GEN msg edns/setedns0:ttl.flags-hi, TV setedns0
+  co-clears-do          SetCo(false) also clears DO                 GEN ops edns/SetCo:ttl.flags-hi, TV step
 """
 import os, json
 import vp
